@@ -225,6 +225,200 @@ pub fn eval_count(c: &CntCase, model: &Model, work: &str, uid: &str, traces: &mu
     None
 }
 
+// ------------------------------------------------------------------ library histories (C17)
+
+/// the table a run must leave: sorted lines `key TAB count` (numeric or ACGT keys) from the Lean spec `countsOf`
+pub fn expected_lines(c: &CntCase, model: &Model) -> Result<Vec<String>, String> {
+    let recs_field = if c.recs.is_empty() { "-".to_string() } else { c.recs.iter().map(|r| hex(r)).collect::<Vec<_>>().join(",") };
+    let ans = model.query(&[format!("counts {} {}", c.k, recs_field)]);
+    let f: Vec<&str> = ans[0].split('|').collect();
+    if f.len() < 4 || f[0] != "ok" {
+        return Err(format!("model failed: {}", trunc(&ans[0], 200)));
+    }
+    let nums: Vec<(String, String)> = if f[1].is_empty() { vec![] } else {
+        f[1].split(',').map(|e| { let mut it = e.split(':'); (it.next().unwrap().to_string(), it.next().unwrap().to_string()) }).collect()
+    };
+    let texts: Vec<String> = if f[3].is_empty() { vec![] } else { f[3].split(',').map(|h| String::from_utf8_lossy(&unhex(h)).to_string()).collect() };
+    let mut expected: Vec<String> = nums.iter().enumerate().map(|(i, (x, n))| format!("{}\t{}", if c.acgt { texts[i].clone() } else { x.clone() }, n)).collect();
+    expected.sort();
+    Ok(expected)
+}
+
+/// one step of a history in a shared output directory: a fresh `CountComputer` on the step's input, or (`reuse`) the object of
+/// the previous step asked to count and merge again after its settings were changed; `delete` is merge's argument
+#[derive(Clone, Debug)]
+pub struct HistStep {
+    pub case: CntCase,
+    pub delete: bool,
+    pub reuse: bool,
+}
+
+#[derive(Clone, Debug)]
+pub struct CntHistory {
+    pub steps: Vec<HistStep>,
+}
+
+impl CntHistory {
+    pub fn req(&self) -> String {
+        format!("cnthist {}", self.steps.iter().map(|s| format!("{}/{}/{}", s.case.req().replace(' ', "/"), if s.delete { 1 } else { 0 }, if s.reuse { 1 } else { 0 })).collect::<Vec<_>>().join(" "))
+    }
+    pub fn parse(line: &str) -> Option<CntHistory> {
+        let w: Vec<&str> = line.split_whitespace().collect();
+        if w.len() < 2 || w[0] != "cnthist" {
+            return None;
+        }
+        let mut steps = Vec::new();
+        for st in &w[1..] {
+            let f: Vec<&str> = st.split('/').collect();
+            if f.len() != 9 {
+                return None;
+            }
+            let case = CntCase::parse(&f[..7].join(" "))?;
+            steps.push(HistStep { case, delete: f[7] == "1", reuse: f[8] == "1" });
+        }
+        Some(CntHistory { steps })
+    }
+    pub fn describe(&self) -> String {
+        self.steps.iter().map(|s| format!("[{} merge({}) {}]", s.case.describe(), s.delete, if s.reuse { "same object again" } else { "new object" })).collect::<Vec<_>>().join(" then ")
+    }
+}
+
+pub fn eval_history(h: &CntHistory, model: &Model, work: &str, uid: &str) -> Option<Fail> {
+    let last = &h.steps[h.steps.len() - 1].case;
+    let expected = match expected_lines(last, model) {
+        Ok(e) => e,
+        Err(e) => return Some(Fail { class: "model", detail: e, theorem: "", impl_out: String::new(), model_out: String::new() }),
+    };
+    let dir = format!("{}/hist_{}", work, uid);
+    let _ = std::fs::remove_dir_all(&dir);
+    let _ = std::fs::create_dir_all(&dir);
+    let mut inputs: Vec<String> = Vec::new();
+    let result = catch(std::panic::AssertUnwindSafe(|| {
+        let mut obj: Option<CountComputer> = None;
+        for (i, st) in h.steps.iter().enumerate() {
+            if !(st.reuse && obj.is_some()) {
+                let inp = write_input(work, &format!("{}_{}", uid, i), &st.case.recs, "fa");
+                inputs.push(inp.clone());
+                let mut cc = CountComputer::new(inp, dir.clone(), st.case.k);
+                cc.set_threads(st.case.threads);
+                obj = Some(cc);
+            }
+            let cc = obj.as_mut().unwrap();
+            cc.set_max_memory(st.case.mem);
+            cc.set_acgt_output(st.case.acgt);
+            cc.count();
+            cc.merge(st.delete);
+        }
+    }));
+    let text = std::fs::read_to_string(format!("{}/kmers.counts", dir)).unwrap_or_default();
+    for i in inputs {
+        let _ = std::fs::remove_file(i);
+    }
+    let _ = std::fs::remove_dir_all(&dir);
+    if let Err(p) = result {
+        return Some(Fail { class: "spec", detail: format!("a step of the history panicked: {}", p), theorem: "KT.ctrRun_result_independent", impl_out: String::new(), model_out: String::new() });
+    }
+    let mut got: Vec<String> = text.lines().map(|l| l.to_string()).collect();
+    got.sort();
+    if got != expected {
+        return Some(Fail {
+            class: "spec",
+            detail: format!("after the history the table has {} lines; the last run alone in a fresh directory gives {}", got.len(), expected.len()),
+            theorem: "KT.ctrRun_result_independent",
+            impl_out: trunc(&got.join(" ; "), 1200),
+            model_out: trunc(&expected.join(" ; "), 1200),
+        });
+    }
+    None
+}
+
+fn shrink_hist(h: &CntHistory) -> Vec<CntHistory> {
+    let mut out = Vec::new();
+    if h.steps.len() > 2 {
+        for i in 0..h.steps.len() - 1 {
+            let mut d = h.clone();
+            d.steps.remove(i);
+            if !d.steps[0].reuse && !d.steps.iter().enumerate().any(|(j, s)| s.reuse && (j == 0 || d.steps[j - 1].delete)) {
+                out.push(d);
+            }
+        }
+    }
+    for i in 0..h.steps.len() {
+        if h.steps[i].reuse || (i + 1 < h.steps.len() && h.steps[i + 1].reuse) {
+            continue;
+        }
+        for r in shrink_records(&h.steps[i].case.recs) {
+            let mut d = h.clone();
+            d.steps[i].case.recs = r;
+            out.push(d);
+        }
+    }
+    out
+}
+
+/// C17 through the library: histories of two or three count+merge steps in one directory — new objects with other inputs,
+/// thread counts and ceilings, `merge(false)` leaving its chunk files behind, the same object asked again after a setter call
+pub fn run_lib_histories(rep: &mut Report, tier: &str, seed: u64, model: &Model, corpus_lines: &[String], work: &str) {
+    if sharded() {
+        return;
+    }
+    rep.rules.push("library histories: 2-3 steps of CountComputer::count + merge(delete?) sharing one output directory (new object on another input / k / threads / ceiling / rendering, or the same object again after set_max_memory / set_acgt_output; merge(false) keeps the chunk files for the next step to trip over); the final kmers.counts must be the table of the last step's input (Lean spec countsOf)".into());
+    let mut rng = Rng::new(seed ^ 0x17);
+    let mut hs: Vec<(CntHistory, &str)> = corpus_lines.iter().filter_map(|l| CntHistory::parse(l)).map(|h| (h, "corpus")).collect();
+    if tier != "replay" {
+        let n = if tier == "thorough" { 400 } else { 60 };
+        for _ in 0..n {
+            let nsteps = rng.range(2, 3) as usize;
+            let mut steps: Vec<HistStep> = Vec::new();
+            for i in 0..nsteps {
+                let reuse = i > 0 && !steps[i - 1].delete && rng.chance(1, 3);
+                let case = if reuse {
+                    let mut c = steps[i - 1].case.clone();
+                    c.mem = *rng.pick(&[6.0, 8.0, 8e-9 * 40.0]);
+                    c.acgt = rng.chance(1, 2);
+                    c
+                } else {
+                    let k = rng.range(2, 12) as usize;
+                    let nrec = match rng.below(4) { 0 => rng.range(0, 1) as usize, 1 => 1, _ => rng.range(2, 14) as usize };
+                    let recs = gen_recs(&mut rng, nrec, k, 120);
+                    let total: usize = recs.iter().map(|r| r.len()).sum::<usize>().max(1);
+                    CntCase { recs, k, threads: *rng.pick(&[1usize, 1, 2, 4, 7]), mem: *rng.pick(&[6.0, 6.0, 8e-9 * (total / 2).max(1) as f64, 8e-9]), acgt: rng.chance(1, 4), sched: "free".into() }
+                };
+                steps.push(HistStep { case, delete: rng.chance(1, 2), reuse });
+            }
+            hs.push((CntHistory { steps }, "library-histories"));
+        }
+    }
+    for (i, (h, section)) in hs.iter().enumerate() {
+        rep.evaluations += 1;
+        progress(&h.req());
+        rep.count(&format!("{}/steps:{}", section, h.steps.len()), 1);
+        rep.count(&format!("{}/same-object-again:{}", section, h.steps.iter().any(|s| s.reuse)), 1);
+        rep.count(&format!("{}/merge-keeps-chunks:{}", section, h.steps.iter().any(|s| !s.delete)), 1);
+        let uid = format!("h{}_{}", seed, i);
+        match eval_history(h, model, work, &uid) {
+            None => {
+                rep.nontrivial.insert(h.req());
+                if i % 20 == 0 {
+                    rep.sample(format!("[{}] {}", section, trunc(&h.describe(), 400)));
+                }
+            }
+            Some(f) => {
+                if rep.fail_count(section, f.class) < 2 {
+                    let k = std::cell::Cell::new(0u64);
+                    let ev = |x: &CntHistory| {
+                        k.set(k.get() + 1);
+                        eval_history(x, model, work, &format!("{}_s{}", uid, k.get()))
+                    };
+                    let from = h.steps.len();
+                    let (sh, sf) = shrink_struct(h.clone(), f, &ev, &shrink_hist, 80);
+                    rep.push_fail(section, trunc(&sh.describe(), 600), sh.req(), sf, from);
+                }
+            }
+        }
+    }
+}
+
 fn gen_recs(r: &mut Rng, n: usize, k: usize, maxlen: usize) -> Vec<Vec<u8>> {
     (0..n)
         .map(|_| match r.below(10) {
